@@ -449,4 +449,25 @@ Proof.
         -- exact SB.
         -- apply frame_ok_set_flags, frame_ok_hset, frame_ok_set_flags, frame_ok_set_flags, F0.
 Qed.
+
+(* ---------- release_block (straight-line) ---------- *)
+Theorem x86_release_block_ok pos r s p h F :
+  code_at im pos (release_block r) ->
+  rget s r = Some p -> rget s HEAP = Some h -> is_blk p ->
+  exists s', steps im pos s (pnth pos 2) s' /\
+     st_eqB (abs_heap F s') (Heap.release p (abs_heap F s)) /\
+     (forall r', r' <> HEAP -> rget s' r' = rget s r') /\ stack s' = stack s /\ out s' = out s.
+Proof.
+  intros HC P Hh Hb. pose proof (blk_heap_addr p Hb) as Ha. unfold release_block in HC.
+  exists (rset (hset s p h) HEAP (Some p)). split; [|split; [|split; [|split; reflexivity]]].
+  - nxt HC 0%nat. { change NEXT_ELEMENT_OFFSET with 0. eapply step_MOVS_heap; [exact P|exact Ha|exact Hh]. }
+    nxt HC 1%nat. { cbn [step]. reflexivity. }
+    change (rget (hset s p h) r) with (rget s r). rewrite P. apply steps_refl.
+  - unfold Heap.release. split; [|split; [|split; [reflexivity|]]].
+    + cbn [abs_heap Heap.heap]. unfold reg_or0. now rewrite rget_rset_same.
+    + cbn [abs_heap Heap.free]. unfold reg_or0. now rewrite rget_rset_other by discriminate.
+    + intros x Hx. cbn [abs_heap Heap.m Heap.heap]. unfold reg_or0 at 1. rewrite Hh.
+      change (abs_mem (rset (hset s p h) HEAP (Some p)) x) with (abs_mem (hset s p h) x). now apply abs_mem_hset.
+  - intros r' Hr. rewrite rget_rset_other by congruence. reflexivity.
+Qed.
 End Refine.
